@@ -18,6 +18,8 @@ Num(n) == CASE n = 0 -> "0" [] n = 1 -> "1" [] n = 2 -> "2" [] n = 3 -> "3" [] n
 CustomTypes ==
   { [t |-> "s" \o Num(n), idx |-> n, sized |-> TRUE, words |-> n, fixed |-> 0, es |-> 0, ea |-> 0, sa |-> 8] : n \in 0..6 }
   \* sized types with a stricter alignment than the tags' 8 (repr(C, align(16)): 16 and 32 bytes)
+  \* an under-aligned type without a TagHeader field (plain 32-bit words, repr(C): 20 bytes, alignment 4)
+  \cup { [t |-> "u20", idx |-> 120, sized |-> TRUE, words |-> 3, fixed |-> 0, es |-> 0, ea |-> 0, sa |-> 4] }
   \cup { [t |-> "a16_" \o Num(n), idx |-> 112 + n, sized |-> TRUE, words |-> n, fixed |-> 0, es |-> 0, ea |-> 0, sa |-> 16] : n \in {2, 6} }
   \cup { [t |-> "d" \o Num(8 + 4 * f) \o "_" \o Num(Elems[e].es), idx |-> 16 + 16 * f + (e - 1), sized |-> FALSE, words |-> 0,
           fixed |-> 8 + 4 * f, es |-> Elems[e].es, ea |-> Elems[e].ea, sa |-> 8] : f \in 0..4, e \in 1..6 }
@@ -25,6 +27,9 @@ CustomParams == { [ty |-> ty, size |-> s, extra |-> -1] : ty \in CustomTypes, s 
                 \* the other public route to a typed view: ref_from_slice on a caller's slice (which may continue behind
                 \* the tag), then cast - the view still has the tag's rounded size, never the slice's
                 \cup { [ty |-> ty, size |-> s, extra |-> x] : ty \in {t \in CustomTypes : t.sized /\ t.sa = 8}, s \in 0..48, x \in {0, 8, 16, 24} }
+                \* two tags of the type's ID, the first too small for the type: the getter is about the FIRST tag of that ID
+                \cup { [ty |-> ty, size |-> s, extra |-> -2, size2 |-> 8 + 4 * ty.words] : ty \in {t \in CustomTypes : t.sized /\ t.sa = 8 /\ t.words >= 1},
+                                                                                       s \in {8, 9, 12} }
 Lead8 == U32Bytes(98) \o U32Bytes(8)
 SliceCase(p) ==
   LET id == U32Bytes(4096 + p.ty.idx)
@@ -32,7 +37,14 @@ SliceCase(p) ==
       mem == [i \in 1..n |-> IF i <= 4 THEN id[i] ELSE IF i <= 8 THEN U32Bytes(p.size)[i - 4] ELSE FillA(i - 1)] IN
   [mem |-> mem, al |-> 0, calls |-> <<[op |-> "slice_cast"] @@ p.ty>>,
    desc |-> [area |-> "custom", t |-> p.ty.t, size |-> p.size, extra |-> p.extra]]
+DupCase(p) ==
+  LET id == U32Bytes(4096 + p.ty.idx)
+      tg(sz) == [i \in 1..RoundUp8(sz) |-> IF i <= 4 THEN id[i] ELSE IF i <= 8 THEN U32Bytes(sz)[i - 4] ELSE IF i <= sz THEN FillA(i - 1) ELSE PadByte] IN
+  [mem |-> InfoImage(<<tg(p.size), tg(p.size2), Neighbour>>), al |-> 0,
+   calls |-> <<[op |-> "load"], [op |-> "custom_get", id |-> id] @@ p.ty>>,
+   desc |-> [area |-> "custom", t |-> p.ty.t, size |-> p.size, dup |-> p.size2]]
 CustomCase(p) ==
+  IF p.extra = -2 THEN DupCase(p) ELSE
   IF p.extra >= 0 THEN SliceCase(p) ELSE
   LET id == U32Bytes(4096 + p.ty.idx)
       tag == [i \in 1..RoundUp8(p.size) |-> IF i <= 4 THEN id[i] ELSE IF i <= 8 THEN U32Bytes(p.size)[i - 4]
